@@ -194,6 +194,47 @@ example : vliDecodeMulti 0 0 [0x85, 0x80, 0x80] = (.ok, 5, 3, 3) := by decide +k
 example : vliDecodeMulti 5 3 [0x80, 0x80, 0x01, 0x77] = (.streamEnd, 2 ^ 35 + 5, 6, 3) := by decide +kernel
 example : vliDecodeMulti 0 0 [0x85, 0x80, 0x00] = (.dataError, 5, 3, 3) := by decide +kernel
 
+/-- `lzma_vli_encode` with a persistent `vli_pos`: writing into one window of `c₁ + c₂` bytes = writing into a window of `c₁` bytes
+    and, if that returned `LZMA_OK` (window full), continuing with the carried `vli_pos` into a window of `c₂` bytes: same final
+    return code, same final `vli_pos`, and the bytes concatenate. (A window of size 0 is answered with `LZMA_BUF_ERROR` and changes
+    nothing.) -/
+theorem vli_encode_chunked (v c₁ c₂ : Nat) (hv : v ≤ VLI_MAX) (h₁ : 0 < c₁) (h₂ : 0 < c₂) :
+    vliEncodeMulti v 0 (c₁ + c₂) =
+      if (vliEncodeMulti v 0 c₁).1 = .ok then
+        ((vliEncodeMulti v (vliEncodeMulti v 0 c₁).2.1 c₂).1, (vliEncodeMulti v (vliEncodeMulti v 0 c₁).2.1 c₂).2.1,
+          (vliEncodeMulti v 0 c₁).2.2 ++ (vliEncodeMulti v (vliEncodeMulti v 0 c₁).2.1 c₂).2.2)
+      else vliEncodeMulti v 0 c₁ := by
+  have e0 : ∀ c, 0 < c → vliEncodeMulti v 0 c = vliEncLoop c v 0 := by
+    intro c hc
+    have : c ≠ 0 := by omega
+    have hv' : ¬ v > VLI_MAX := by omega
+    simp [vliEncodeMulti, this, VLI_BYTES_MAX, hv']
+  rw [e0 _ (by omega), e0 _ h₁, vliEncLoop_append _ _ _ _ h₁ h₂]
+  split
+  · rename_i hok
+    obtain ⟨i1, _, i3⟩ := vliEncLoop_ok c₁ v 0 hok h₁
+    have hlt : c₁ < 9 := by
+      by_cases h9 : c₁ < 9
+      · exact h9
+      · exfalso
+        have : 128 ^ 9 ≤ 128 ^ c₁ := Nat.pow_le_pow_right (by omega) (by omega)
+        have hm : v < 128 ^ 9 := by simp [VLI_MAX] at hv; omega
+        omega
+    have e1 : vliEncodeMulti v (vliEncLoop c₁ v 0).2.1 c₂ = vliEncLoop c₂ (v / 128 ^ c₁) (0 + c₁) := by
+      rw [i1]
+      have hc2 : c₂ ≠ 0 := by omega
+      have hv' : ¬ v > VLI_MAX := by omega
+      have hp : ¬ (0 + c₁ ≥ VLI_BYTES_MAX) := by simp [VLI_BYTES_MAX]; omega
+      have hs : v >>> ((0 + c₁) * 7) = v / 128 ^ c₁ := by
+        rw [Nat.shiftRight_eq_div_pow, Nat.zero_add, Nat.mul_comm, Nat.pow_mul]
+      simp only [vliEncodeMulti, hc2, if_false, hp, hv', or_self, hs]
+    rw [e1]
+  · rfl
+
+example : vliEncodeMulti 123456789 0 9 = (.streamEnd, 4, [0x95, 0x9A, 0xEF, 0x3A]) := by decide +kernel
+example : vliEncodeMulti 123456789 0 1 = (.ok, 1, [0x95]) := by decide +kernel
+example : vliEncodeMulti 123456789 1 8 = (.streamEnd, 4, [0x9A, 0xEF, 0x3A]) := by decide +kernel
+
 /-- The `lzma_bufcpy` field reader (`coder->pos` into a buffer of `size` bytes; Stream Header/Footer, Block Header, …): under every
     slicing the buffer holds exactly the first `consumed` bytes of the input, never more than `size`; nothing is written; and a
     settled run has consumed `min size |input|` bytes — the field is complete (`LZMA_STREAM_END` here) iff the input is long enough. -/
